@@ -185,6 +185,13 @@ func (nmds *NumpyMultiDataset) Append(cs *ColumnSeries, tbk TimeBucketKey) (err 
 			return
 		}
 	}
+	// the column types must match too: the column data of all buckets share one byte buffer per column
+	for idx, shape := range cs.GetDataShapes() {
+		if typeStr, ok := typeMap[shape.Type]; !ok || idx >= len(nmds.ColumnTypes) || typeStr != nmds.ColumnTypes[idx] {
+			err = errors.New("data type mismatch of ColumnSeries and NumpyMultiDataset")
+			return
+		}
+	}
 	nmds.StartIndex[tbk.String()] = nmds.Length
 	nmds.Lengths[tbk.String()] = cs.Len()
 	nmds.Length += cs.Len()
